@@ -71,6 +71,16 @@ theorem C01_end_to_end (s : Str) (c : List Spec.CSegment) (v : Json)
   ⟨_, C03_structural builtinEnv s c hp hff hr,
     compile_then_find s _ v (C03_structural builtinEnv s c hp hff hr) hwf hd⟩
 
+/-- End to end WITH filters (C03 ∘ C05 ∘ C02), built-in functions: for every string the RFC recogniser derives
+and the validity rules accept, and every well-formed JSON value within the default depth limit, compile()
+succeeds and find() returns exactly the RFC 9535 nodelist of the derivation. -/
+theorem C02_end_to_end (s : Str) (c : List Spec.CSegment) (v : Json)
+    (hj : Spec.judge (sigsOfEnv builtinEnv) builtinEnv.minIdx builtinEnv.maxIdx s = (.valid, some c))
+    (hwf : v.WF) (hd : v.depth ≤ 100) :
+    ∃ q, Impl.compile builtinEnv s = .ok q ∧
+      Impl.find builtinEnv q v = .ok (Spec.select builtinReg (Spec.abstractSegs c) v) :=
+  ⟨_, C03 builtinEnv s c hj, compile_then_find s _ v (C03 builtinEnv s c hj) hwf hd⟩
+
 -- the hypotheses are satisfiable by non-trivial strings (blanks, both quotes, escapes, slices, descendant)
 example : (match Spec.parseQuery "$ [ 'a\\u00e9' , \"b\" ]..[ 1 : : -2 , * ] .é".toList with
     | .valid c => Spec.filterFree (Spec.abstractSegs c) &&
